@@ -372,6 +372,11 @@ func oracle(c Case) (evid.Info, error) {
 	if !reflect.DeepEqual(q1, q2) {
 		return info, fmt.Errorf("accepted %q; the model of its emitted form %q differs structurally from the original model", c.Text, t1)
 	}
+	if hasDuplicateMapKeys(c.Text) {
+		// {k: a, k: b} denotes {k: b}: the model (a Go map) keeps the last entry, the earlier value is dead text
+		info.Skip = "duplicate-map-keys"
+		return info, nil
+	}
 	in, lexErrs := contentTokens(c.Text)
 	out, _ := contentTokens(t1)
 	if lexErrs == 0 {
@@ -552,13 +557,44 @@ func TestC07Corpus(t *testing.T) {
 }
 
 func TestC07Mutated(t *testing.T) {
-	evid.Prop(t, "mut", evid.R.N(4000, 50000), genCorpusMut, oracle)
+	evid.Prop(t, "mut", evid.R.N(4000, 15000), genCorpusMut, oracle)
 }
 
 func TestC07Sibling(t *testing.T) {
-	evid.Prop(t, "sib", evid.R.N(3000, 30000), genSibling, oracle)
+	evid.Prop(t, "sib", evid.R.N(3000, 10000), genSibling, oracle)
 }
 
 func TestC07Grammar(t *testing.T) {
-	evid.Prop(t, "g4", evid.R.N(6000, 80000), genG4, oracle)
+	evid.Prop(t, "g4", evid.R.N(6000, 25000), genG4, oracle)
+}
+
+// hasDuplicateMapKeys reports whether some map literal / property map of the text repeats a key.
+func hasDuplicateMapKeys(text string) bool {
+	toks, _ := corpus.Lex(text)
+	var ns []corpus.Token
+	for _, t := range toks {
+		if t.Name != "SP" {
+			ns = append(ns, t)
+		}
+	}
+	var stack []map[string]bool
+	for i, t := range ns {
+		switch t.Text {
+		case "{":
+			stack = append(stack, map[string]bool{})
+		case "}":
+			if len(stack) > 0 {
+				stack = stack[:len(stack)-1]
+			}
+		case ":":
+			if len(stack) > 0 && i >= 2 && (ns[i-2].Text == "{" || ns[i-2].Text == ",") {
+				key := unescapeName(ns[i-1].Text)
+				if stack[len(stack)-1][key] {
+					return true
+				}
+				stack[len(stack)-1][key] = true
+			}
+		}
+	}
+	return false
 }
